@@ -40,10 +40,12 @@ structure Entry where
   val : Nat
   deriving DecidableEq, Repr, Inhabited
 
-/-- `ObjectHashMap<T>` (`data: Box<[HashMapEntry<T>]>, entries, capacity, gc_epoch`) -/
+/-- `ObjectHashMap<T>` (`data: Box<[HashMapEntry<T>]>, entries, deleted, capacity, gc_epoch`) -/
 structure Map where
   data : List Entry
   entries : Nat
+  /-- number of `DELETED` slots (tombstones); counts towards the load factor -/
+  deleted : Nat
   capacity : Nat
   gcEpoch : Nat
   deriving DecidableEq, Repr, Inhabited
@@ -52,11 +54,11 @@ structure Map where
 def minCapacity : Nat := 8
 
 /-- `ObjectHashMap::new` -/
-def new : Map := { data := [], entries := 0, capacity := 0, gcEpoch := 0 }
+def new : Map := { data := [], entries := 0, deleted := 0, capacity := 0, gcEpoch := 0 }
 
 /-- `ObjectHashMap::with_capacity` (`HashMapEntry::default()` = key `Address::null()` = `EMPTY`) -/
 def withCapacity (capacity ep : Nat) : Map :=
-  { data := List.replicate capacity ⟨0, 0⟩, entries := 0, capacity := capacity, gcEpoch := ep }
+  { data := List.replicate capacity ⟨0, 0⟩, entries := 0, deleted := 0, capacity := capacity, gcEpoch := ep }
 
 /-- the loop of `capacity_for_entries`: `while entries > capacity - (capacity / 4) { capacity *= 2; }` -/
 def capLoop (entries : Nat) : Nat → Nat → Nat
@@ -68,7 +70,7 @@ def capLoop (entries : Nat) : Nat → Nat → Nat
 def capacityForEntries (entries : Nat) : Nat := capLoop entries entries minCapacity
 
 /-- `overflow` -/
-def overflow (m : Map) : Bool := m.entries + 1 > m.capacity - m.capacity / 4
+def overflow (m : Map) : Bool := m.entries + m.deleted + 1 > m.capacity - m.capacity / 4
 
 /-- `underflow` -/
 def underflow (m : Map) : Bool := m.entries < m.capacity / 4
@@ -111,7 +113,14 @@ def insertLoop (m : Map) (key val : Nat) : Nat → Nat → Option Nat → Except
         insertLoop m key val fuel (next m idx) (match acc with | none => some idx | some i => some i)
       else
         let i := match acc with | none => idx | some i => i
-        .ok { m with data := m.data.set i ⟨key, val⟩, entries := m.entries + 1 }
+        -- `if self.is_deleted(insert_idx) { self.deleted -= 1; }`
+        match m.data[i]? with
+        | none => .error (.panic "index out of bounds")
+        | some e' =>
+          if e'.key = 1 then
+            (if m.deleted = 0 then .error (.panic "deleted -= 1 overflows")
+             else .ok { m with data := m.data.set i ⟨key, val⟩, entries := m.entries + 1, deleted := m.deleted - 1 })
+          else .ok { m with data := m.data.set i ⟨key, val⟩, entries := m.entries + 1 }
 
 /-- the probe loop of `remove` (the slot keeps an uninitialised value in Rust; unobservable, `0` here) -/
 def removeLoop (m : Map) (key : Nat) : Nat → Nat → Except Err (Option Nat × Map)
@@ -123,7 +132,7 @@ def removeLoop (m : Map) (key : Nat) : Nat → Nat → Except Err (Option Nat ×
       if 1 < e.key then
         (if e.key = key then
           (if m.entries = 0 then .error (.panic "entries -= 1 overflows")
-           else .ok (some e.val, { m with data := m.data.set idx ⟨1, 0⟩, entries := m.entries - 1 }))
+           else .ok (some e.val, { m with data := m.data.set idx ⟨1, 0⟩, entries := m.entries - 1, deleted := m.deleted + 1 }))
          else removeLoop m key fuel (next m idx))
       else if e.key = 1 then removeLoop m key fuel (next m idx)
       else .ok (none, m)
